@@ -245,7 +245,9 @@ def check_program(prog, want=('C01', 'C02', 'C03'), part=None):
                                         else 'possibly-undefined:%s:read=%s' % ('supp-only' if u_supp else 'missed', rs.rclass),
                                         'read `%s` at %s: supp marks possibly-undefined=%s, some path reaches it unbound=%s' % (rs.var, rs.pos, u_supp, u_true),
                                         ctx({'read': r})))
-                if not reach and lenient.unbound.get(r) and rs.scope == 0 and not hasattr(__import__('builtins'), rs.var):
+                declared_global = isinstance(rs.scope, tuple) and str(rs.scope[-1]).startswith('G')
+                module_binds = any(x.var == rs.var and x.scope == 0 for x in rp.defs.values())
+                if not reach and lenient.unbound.get(r) and (rs.scope == 0 or (declared_global and not module_binds)) and not hasattr(__import__('builtins'), rs.var):
                     if lintE.get(rs.pos) != 'E02':
                         out.append(('C03', 'never-bound-not-flagged:read=%s' % rs.rclass,
                                     '`%s` at %s is unbound on every path and not a builtin, lint reports %r there' % (rs.var, rs.pos, lintE.get(rs.pos)),
